@@ -248,6 +248,29 @@ func checkSameRoot(c *Case, e *convtab.Entry) (res kit.Result) {
 	if n > 0 {
 		res.Class("windowsOfOneParent")
 	}
+	// in place: the very same window as source and destination (through one header, then through a
+	// second header over the same frames). A same-type conversion is the identity on every sample
+	// (C07 for the fixed-point ones, value preservation for floating point), so "source unchanged"
+	// and "result k is the conversion of sample k" hold together: nothing at all may change.
+	// (Windows that overlap with a shift are outside the property: the source cannot stay unchanged.)
+	model = root.Snap()
+	for i, d2 := range []kit.AnyBuf{src, root.Slice(c.Src.A, c.Src.B)} {
+		if p, v := kit.Try(func() { ret = e.Convert(src, d2) }); p {
+			res.Failf("%s of a window onto itself: panic: %v", e, v)
+			return
+		}
+		if want := kit.CeilDiv(sn, C); ret != want {
+			res.Failf("%s of a window onto itself returned %d, want %d", e, ret, want)
+			return
+		}
+		if d := kit.DiffVals("parent storage", root.Snap(), model); d != "" {
+			res.Failf("%s of frames [%d,%d) onto themselves (%s): %s", e, c.Src.A, c.Src.B, []string{"one header", "two headers over the same frames"}[i], d)
+			return
+		}
+	}
+	if sn > 0 {
+		res.Class("convertedInPlace")
+	}
 	return
 }
 
